@@ -19,7 +19,32 @@ class TranslateError(Exception):
 
 # ------------------------------------------------------------------ grammar
 
+def strip_pest_comments(text):
+    """blank out `// …` and `/* … */` comments of the grammar file (outside string literals)"""
+    out = []
+    i, n = 0, len(text)
+    while i < n:
+        c = text[i]
+        if c == '"':
+            j = i + 1
+            while text[j] != '"':
+                j += 2 if text[j] == "\\" else 1
+            out.append(text[i:j + 1])
+            i = j + 1
+        elif text.startswith("//", i):
+            j = text.find("\n", i)
+            i = n if j < 0 else j
+        elif text.startswith("/*", i):
+            j = text.find("*/", i)
+            i = n if j < 0 else j + 2
+        else:
+            out.append(c)
+            i += 1
+    return "".join(out)
+
+
 def parse_grammar(text):
+    text = strip_pest_comments(text)
     rules = {}
     i = 0
     pat = re.compile(r"([A-Za-z_][A-Za-z_0-9]*)\s*=\s*([_@$!]?)\{")
